@@ -81,6 +81,9 @@ class Universe:
             return 'payload'
         if fi.name == '__init__' and fi.is_method:
             return 'init'
+        if mod in ('yaql.language.factory', 'yaql.language.parser',
+                   'yaql.language.lexer'):
+            return 'parse'      # builds the shared statement tree
         if mod.startswith('yaql.standard_library'):
             if top.name.startswith('register'):
                 return 'register'
